@@ -84,8 +84,11 @@ FW_PLANS = {
             rand=dict(scenarios=400, calls=30), compose=dict(scenarios=40)),
         thorough=dict(
             workers=14, compose=dict(scenarios=400),
-            mc=[C("core-thorough", "core", 2, 2, "mixed", [])],
+            mc=[C("core-thorough", "core", 2, 2, "mixed", []),
+                C("lazy", "lazy", 3, 1, "one", ["Inv_C01", "Inv_C04", "Inv_C07", "Inv_C08", "Inv_C09"], timeout=3000)],
             gen=[C("core-quick", "full", 2, 2, "mixed", timeout=3000), C("core-thorough", "core", 3, 1, "mixed"),
+                 C("lazy", "lazy", 2, 1, "one"), C("end-quick", "end", 2, 2, "one"), C("limit-duo", "limit", 3, 1, "one"),
+                 C("sig-duo", "sig", 2, 2, "one"), C("limit-reenter", "limit", 3, 2, "one"),
                  C("ctr-quick", "ctr", 3, 2, "one"), C("sig-quick", "sig", 2, 2, "one"),
                  C("limit-quick", "limit", 4, 1, "one"), C("pad-quick", "pad", 4, 1, "one"),
                  C("block-quick", "block", 4, 1, "mixed")],
